@@ -210,10 +210,12 @@ PROPS["C16"] = {
     "harnesses": [
         {"name": "c16_history", "params": {"quick": {"steps": 4, "prefix": 0}, "thorough": {"steps": 5, "prefix": 0}}, "covers": ["restart.log-kept", "restart.log-discarded"], "budget_s": {"quick": 900, "thorough": 7200}},
         {"name": "c16_history_persisted", "fn": "c16_history", "params": {"quick": {"steps": 4, "prefix": 1}, "thorough": {"steps": 5, "prefix": 1}}, "covers": ["restart.log-kept", "restart.log-discarded"], "budget_s": {"quick": 900, "thorough": 7200}},
+        {"name": "c16_crash", "covers": ["crash.inside-window", "crash.none", "crash.log-kept", "crash.log-discarded"]},
+        {"name": "c16_crash_second_boot", "fn": "c16_crash", "params": {"quick": {"second-boot": 1}}, "covers": ["crash.inside-window", "crash.none"]},
     ],
-    "bounds": {"quick": "all histories of 4 steps from {create-db da, create-db db, first / repeated write of keys k0 k1 k2, snapshot da, snapshot db, restart (clean = safe_shutdown first, or kill)} on a node booted the way start_db does, with the real replication loop writing the op-log; from an empty data directory and from a persisted first phase (da exists, holds k0, snapshotted); at every restart every record of the kept log is decoded through the restarted node's id maps and compared with what it meant to the node that wrote it; key ids and database ids in use are pairwise distinct after every step",
+    "bounds": {"quick": "all histories of 4 steps from {create-db da, create-db db, first / repeated write of keys k0 k1 k2, snapshot da, snapshot db, restart (clean = safe_shutdown first, or kill)} on a node booted the way start_db does, with the real replication loop writing the op-log; from an empty data directory and from a persisted first phase (da exists, holds k0, snapshotted); kill at any instant (c16_crash): from a persisted database, the node dies at a solver-chosen file-system operation inside the window {first write of a new key (key-id registration, flag update, op-log append); optional key-map + database snapshot; first write of another new key; optional clean shutdown}, restarts, writes a further new key, is killed and restarts again (also with the window opening on a node that was itself started from disk); at every restart every record of the kept log is decoded through the restarted node's id maps and compared with what it meant to the node that wrote it; key ids and database ids in use are pairwise distinct after every step",
                "thorough": "5 steps"},
-    "outside": "kills in the middle of one of the file writes of key-id registration / key-map write / flag update (restarts happen between operations; C11 covers intra-snapshot crash points); rotated op-log files",
+    "outside": "torn writes inside one write call (a write call is applied whole or not at all); kills inside create-db; rotated op-log files",
     "assumptions": ["in-memory file system shim", "environment shims"],
 }
 
